@@ -86,10 +86,10 @@ theorem eval_frame (fuel : Nat) :
         simp only [evalDict] at h
         split at h
         · cases h
-        · rename_i es1 k' h1
+        · rename_i es1 v' h1
           split at h
           · cases h
-          · rename_i es2 v' h2
+          · rename_i es2 k' h2
             split at h
             · cases h
             · rename_i es3 rest' h3
